@@ -12,8 +12,8 @@ from derw import seq, tlv
 import json
 
 DAY = 86400
-EXTS = ["bc_ca", "bc_ca0", "bc_ee", "ku_sign", "ku_ca", "ku_all", "eku", "ski", "aki", "pc", "crldp", "san9", "ian12"]
-XOID = {"bc": 19, "ku": 15, "eku": 37, "ski": 14, "aki": 35, "pc": 36, "crldp": 31, "san": 17, "ian": 18}
+EXTS = ["bc_ca", "bc_ca0", "bc_ee", "ku_sign", "ku_ca", "ku_all", "eku", "ski", "aki", "pc", "crldp", "san9", "ian12", "iap", "aia", "cp", "pm", "nc", "fcrl"]
+XOID = {"bc": 19, "ku": 15, "eku": 37, "ski": 14, "aki": 35, "pc": 36, "crldp": 31, "san": 17, "ian": 18, "iap": 54, "cp": 32, "pm": 33, "nc": 30, "fcrl": 46, "aia": None}
 
 
 def expected_exts(tokens):
@@ -23,7 +23,7 @@ def expected_exts(tokens):
         c = 1 if t.endswith("!") else 0
         t = t.rstrip("!?")
         name = next(k for k in sorted(XOID, key=len, reverse=True) if t.startswith(k))
-        oids.append([0x55, 0x1d, XOID[name]]); crit.append(c)
+        oids.append([0x55, 0x1d, XOID[name]] if XOID[name] is not None else [0x2b, 6, 1, 5, 5, 7, 1, 1]); crit.append(c)          # id-pe-authorityInfoAccess 1.3.6.1.5.5.7.1.1
         if name in ("san", "ian"):
             nlen = max(1, int(t[3:] or 1))
             vals.append(list(seq(tlv(0x82, b"a" * nlen))))
